@@ -310,7 +310,8 @@ def ex_nest(rng, depth):
     # aws_json_value_compare visits the members of nested objects from both sides (2^depth calls): only compared for arrays
     cmp6, cmp7 = (["CMP 0 6"], ["CMP 0 7"]) if kind == "arr" else ([], [])
     return (["RESET", "FLAT 1", "PARSE 0 %s" % hx(text.encode()), "PRINT 0 0 0 0", "PARSELAST 6", "RT 0 6"] + cmp6 +
-            ["DESTROY 6", "PRINT 0 1 0 0", "PARSELAST 6", "RT 0 6", "DESTROY 6", "DUP 0 7"] + cmp7)
+            ["DESTROY 6"] + (["PRINT 0 1 0 0", "PARSELAST 6", "RT 0 6", "DESTROY 6"] if depth <= 100 else []) +   # indentation is quadratic
+            ["DUP 0 7"] + cmp7)
 
 
 def from_tlc(s):
@@ -419,6 +420,8 @@ def run(ctx):
                                  seed=ctx.seed, workers=4)
     execs = [from_tlc(s) for s in scripts]
     execs = [e for e in execs if len(e) > 4]
+    random.Random(ctx.seed).shuffle(execs)
+    execs = execs[:500 if not thorough else 8000]
     ctx.extra["tlc_generated_scripts"] = len(execs)
     rng = random.Random(ctx.seed)
     mult = 1 if not thorough else 12
@@ -434,15 +437,15 @@ def run(ctx):
         execs.append(ex_array(rng, at_size=True))
     for _ in range(260 * mult):
         execs.append(ex_text(rng, rng.choice([0, 1, 2, 3, 4, 4])))
-    nest = [ex_nest(rng, d) for d in ([NEST_LIMIT, NEST_LIMIT - 1, 500] if not thorough else [NEST_LIMIT, NEST_LIMIT - 1, 999, 500, 100, 64])]
+    nest = [ex_nest(rng, d) for d in ([NEST_LIMIT, NEST_LIMIT, NEST_LIMIT - 1, 100, 64, 30] if not thorough else [NEST_LIMIT] * 6 + [NEST_LIMIT - 1, 999, 500, 100, 100, 64, 64])]
     ctx.extra["driver_executions"] = len(execs) + len(nest) - ctx.extra["tlc_generated_scripts"]
     for ex in execs:
         txt = "\n".join(ex)
         if ("ADDOBJ" in txt or "ADDARR" in txt or "PARSE " in txt) and "PRINT" in txt:
             ctx.distinct.add(hash(txt))
     ctx.add_sample({"script": execs[0]})
-    ctx.add_sample({"script": execs[len(execs) // 2][:16]})
-    ctx.add_sample({"script": execs[-1][:6]})
+    ctx.add_sample({"script": [ln[:200] for ln in execs[len(execs) // 2][:16]]})
+    ctx.add_sample({"script": [ln[:200] for ln in execs[-1][:6]]})
     tlc_env = {"VERIF_DEV_" + d: "1" for d in devs}
     fired = {}
 
@@ -452,12 +455,13 @@ def run(ctx):
             if m:
                 fired[m.group(1)] = fired.get(m.group(1), 0) + 1
 
+    # the nesting-limit executions need a deep Java stack for the recursive TLA+ operators (every batch gets it); they are
+    # spread over the batches
+    step = max(1, len(execs) // (len(nest) + 1))
+    for k, ex in enumerate(nest):
+        execs.insert(min(len(execs), (k + 1) * step + k), ex)
+    tlc_env["JAVA_TOOL_OPTIONS"] = "-Xss1g"
     pipeline.drive_and_validate(ctx, exe, execs, SPEC_DIR, "JsonValueTrace", "Trace.cfg", label="json", nbatch=16, tlc_env=tlc_env,
-                                on_fired=on_fired)
-    # deep nesting needs a deep Java stack for the recursive TLA+ operators
-    env2 = dict(tlc_env)
-    env2["JAVA_TOOL_OPTIONS"] = "-Xss1g"
-    pipeline.drive_and_validate(ctx, exe, nest, SPEC_DIR, "JsonValueTrace", "Trace.cfg", label="jsonnest", nbatch=len(nest), tlc_env=env2,
                                 on_fired=on_fired)
     for nm in sorted(fired):
         rec = devs.get(nm, {})
